@@ -267,6 +267,8 @@ class Repo:
 
     def cls(self, qual) -> ClassInfo:
         parts = qual.split(".")
+        if len(parts) < 2:
+            raise AnalysisError("class %s not found" % qual)
         m = self.module(parts[0])
         cur = m.classes.get(parts[1])
         if cur is None:
@@ -279,6 +281,8 @@ class Repo:
 
     def try_cls(self, qual):
         try:
+            if qual.split(".")[0] not in self.modules:
+                return None
             return self.cls(qual)
         except AnalysisError:
             return None
